@@ -1135,7 +1135,9 @@ async def async_fifo_stream(
                 await tasks.put((x, t))
                 # The size of the queue `tasks` regulates how many
                 # concurrent calls to `func` there can be.
-        except Exception as e:
+        except (Exception, StopRequested) as e:
+            # `StopRequested` (a `BaseException`) is what a stoppable source raises;
+            # it must reach the consumer like any other failure of the source.
             await tasks.put(e)
         else:
             await tasks.put(None)
@@ -1159,7 +1161,7 @@ async def async_fifo_stream(
             z = await tasks.get()
             if z is None:
                 break
-            if isinstance(z, Exception):
+            if isinstance(z, (Exception, StopRequested)):
                 raise z
 
             x, t = z
@@ -1183,7 +1185,7 @@ async def async_fifo_stream(
             z = await tasks.get()
             if z is None:
                 break
-            if isinstance(z, Exception):
+            if isinstance(z, (Exception, StopRequested)):
                 break
             _, t = z
             t.cancel()
